@@ -189,12 +189,14 @@ Print Assumptions reachable_closure_captures.
 (* faithful layer (MakeFunction snapshots for mainfunc, callExprEval functions and templates; the third stage of
    LexicalLookupSymbol): under cov the real three-stage lookup equals the lookup of the core machine, hence is
    lexical; cov holds initially and is re-established by each transition.
-   lookup_is_lexical_partial -- what is NOT closed: (a) cov is proved transition by transition (cov_init,
-   cov_add_scope, cov_enter_arg, cov_create_closure, cov_call, cov_tail_call, cov_restore) but not assembled into one
-   induction over event sequences as scope_inv_preserved is (the restoring transitions need the well-bracketing of
-   the events); (b) the premise of cov_call / cov_tail_call that the template's captured stack lies inside the
-   closure's chain is justified by when templates are compiled, is checked by the replay on every run, not proved;
-   (c) that RefSem.eval emits exactly these events is by construction of the evaluator, not a theorem. *)
+   The local cov lemmas are assembled into one induction over event sequences (invF_preserved / invF_reachable
+   below); every event of the faithful machine erases to the same event of the core machine (fstep_erases), so one
+   run carries scope_inv and cov together and reachable_lookupF_is_lexical has no cov premise.
+   lookup_is_lexical_partial -- what is NOT closed: (a) the premise  incl tmpl (corep f)  of F_call / F_tail_call
+   (the template's captured stack lies inside the chain of the closure entered) is a fact about when templates are
+   compiled; it is not proved, the replay TESTS it at every function entry of every run (call_premise_b, sound by
+   call_premise_sound) and tests cov itself at every compared point (covb, sound by covb_sound);
+   (b) that RefSem.eval emits exactly these events is by construction of the evaluator, not a theorem. *)
 Theorem lookup_is_lexical_faithful : forall fs env st x, cov st -> R env (erase st) ->
   impl_lookupF fs st x = lookup_chain fs env x.
 Proof. exact ScopeImplProofs.lookup_is_lexical_faithful. Qed.
@@ -219,6 +221,54 @@ Theorem cov_tail_call : forall k id tmpl st cl par, curF st = GSub false cl par 
 Proof. exact ScopeImplProofs.cov_tail_call. Qed.
 Theorem cov_restore : forall st0 st1, cov st0 -> liveF st1 = liveF st0 -> curF st1 = curF st0 -> cov st1.
 Proof. exact ScopeImplProofs.cov_restore. Qed.
+
+
+(* the assembled form: events of the faithful machine (frames as in scope_inv; the pool holds the closures created
+   so far, only those are called) *)
+Theorem invF_init : invF [mkJ [O] [] false O] [] init_istateF.
+Proof. exact ScopeImplProofs.invF_init. Qed.
+Theorem invF_preserved : forall frs pool st frs' pool' st',
+  invF frs pool st -> fstep (frs, pool, st) (frs', pool', st') -> invF frs' pool' st'.
+Proof. exact ScopeImplProofs.invF_preserved. Qed.
+Theorem invF_cov : forall frs pool st, invF frs pool st -> cov st.
+Proof. exact ScopeImplProofs.invF_cov. Qed.
+Theorem fstep_erases : forall frs pool st frs' pool' st',
+  fstep (frs, pool, st) (frs', pool', st') -> jstep (frs, erase st) (frs', erase st').
+Proof. exact ScopeImplProofs.fstep_erases. Qed.
+
+(* the REAL three-stage lookup is lexical in every configuration reached by the events *)
+Theorem reachable_lookupF_is_lexical : forall fs fr rest pool st x,
+  fsteps finit (fr :: rest, pool, st) ->
+  impl_lookupF fs st x = lookup_chain fs (jf_env fr) x.
+Proof. exact ScopeImplProofs.reachable_lookupF_is_lexical. Qed.
+Print Assumptions reachable_lookupF_is_lexical.
+
+Theorem reachable_closureF_captures : forall fr rest pool st,
+  fsteps finit (fr :: rest, pool, st) ->
+  corep (create_closureF st) = jf_env fr /\ wf_clos (create_closureF st).
+Proof. exact ScopeImplProofs.reachable_closureF_captures. Qed.
+Print Assumptions reachable_closureF_captures.
+
+(* the decidable forms the replay evaluates are sound *)
+Theorem covb_sound : forall st, covb st = true -> cov st.
+Proof. exact ScopeImplProofs.covb_sound. Qed.
+Theorem call_premise_sound : forall tmpl f, call_premise_b tmpl f = true -> incl tmpl (corep f).
+Proof. exact ScopeImplProofs.call_premise_sound. Qed.
+
+(* the events are not vacuous: enter a let scope, create a closure there, leave, call the closure -- its body
+   looks up through its function scope 2, the captured let scope 1 and the global scope 0 *)
+Example ex_fsteps :
+  let st1 := add_scopeF 1 init_istateF in
+  let f := create_closureF st1 in
+  fsteps finit ([mkJ [2; 1; 0]%nat [1; 0]%nat true 1; mkJ [O] [] false O], [f],
+                add_func_scopeF 2 [] (enter_fnF f (remove_scopeF st1))).
+Proof.
+  simpl. eapply fs_step; [apply F_enter_scope with (id := 1%nat)|].
+  eapply fs_step; [apply F_create_closure|].
+  eapply fs_step; [eapply F_leave_scope with (d := O); [reflexivity|reflexivity|discriminate]|].
+  eapply fs_step; [eapply (F_call _ _ _ _ 2%nat []); [left; reflexivity|apply incl_nil_l]|].
+  apply fs_refl.
+Qed.
 
 (* ---- 7. non-vacuity ---- *)
 
